@@ -159,6 +159,57 @@ def simple(p):
     return "[" not in p and "\\" not in p
 
 
+def ign_simple(p):
+    """an ignore pattern the oracle reads itself: literals, '*', '?' and ESCAPED characters (a backslash
+    makes the next character a literal; '[' only when escaped)"""
+    i = 0
+    while i < len(p):
+        if p[i] == "\\":
+            i += 2
+            continue
+        if p[i] == "[":
+            return False
+        i += 1
+    return True
+
+
+def esc_items(pat):
+    """pattern -> list of ('lit', c) | ('star',) | ('any',); None for ErrBadPattern (trailing backslash)"""
+    items = []
+    i = 0
+    while i < len(pat):
+        c = pat[i]
+        if c == "\\":
+            if i + 1 >= len(pat):
+                return None
+            items.append(("lit", pat[i + 1]))
+            i += 2
+            continue
+        items.append(("star",) if c == "*" else ("any",) if c == "?" else ("lit", c))
+        i += 1
+    return items
+
+
+def glob_match_esc(pat, s):
+    """path.Match for patterns without classes, with escapes; a malformed pattern matches nothing"""
+    items = esc_items(pat)
+    if items is None:
+        return False
+
+    def go(i, j):
+        if i == len(items):
+            return j == len(s)
+        it = items[i]
+        if it[0] == "star":
+            return go(i + 1, j) or (j < len(s) and s[j] != "/" and go(i, j + 1))
+        if j >= len(s):
+            return False
+        if it[0] == "any":
+            return s[j] != "/" and go(i + 1, j + 1)
+        return it[1] == s[j] and go(i + 1, j + 1)
+    return go(0, 0)
+
+
 def resolve_rel(p, f):
     return "/".join(py_clean_segs(p) + py_clean_segs(f))
 
@@ -176,8 +227,8 @@ def oracle_fileset(c):
     if c.get("err") not in (None, "", "nofiles"):
         return None
     r, p = c["rule"], c["p"]
-    if not all(simple(x) for x in r["select"] + r["ignore"]):
-        return None     # classes / escapes: the correspondence with the proved model decides
+    if not all(simple(x) for x in r["select"]) or not all(ign_simple(x) for x in r["ignore"]):
+        return None     # classes (and escapes in selections): the correspondence with the proved model decides
     recursive_only = all(sel == "**" or sel.endswith("/**") for sel in r["select"])
     if any(kind(e) not in ("f", "d") for e in c["tree"]) and not recursive_only:
         return None     # filepath.Glob passes through linked directories (open finding): correspondence decides
@@ -190,7 +241,7 @@ def oracle_fileset(c):
     ipats = [resolve_rel(p, i) for i in r["ignore"] if not i.endswith("/")]
 
     def ignored(m):
-        return any(beneath(m, d) for d in idirs) or any(glob_match(i, m) for i in ipats)
+        return any(beneath(m, d) for d in idirs) or any(glob_match_esc(i, m) for i in ipats)
 
     def walked(q):
         """the walk descends q: a real directory not named .git (a link is an entry, never followed)"""
